@@ -2,6 +2,8 @@
 import numpy as np
 from hypothesis import strategies as st
 
+from vk import gen
+
 ID = "C03"
 LEVEL = "exploration"
 RULE = (
@@ -59,7 +61,7 @@ def build(case):
     rows = []
     for ci, c in enumerate(case["chroms"]):
         n = c["n"]
-        pos = int(rng.integers(0, 50000))
+        pos = int(rng.integers(0, 50000)) + gen.offset_for(case)
         gap_at = None
         if c["gap"] == "central" and n >= 103:
             margin = max(50, int(round(0.1 * n)))
